@@ -924,7 +924,161 @@ fn replay(case: &Value, st: &mut Stats) {
     }
 }
 
+// ---------------------------------------------------------------------------------------------
+// Supervisor: the exploration runs in a child process, because the defects this property is
+// about (a count that is one too low) end in a use-after-free / double free that aborts the
+// process before any oracle can speak. A child that dies from a signal is turned into a verdict
+// by re-running short histories one per child process until the dying one is found.
+// ---------------------------------------------------------------------------------------------
+
+fn child(args: &[String]) -> std::process::Output {
+    let exe = std::env::current_exe().unwrap_or_else(|e| vcore::machinery_error(&format!("current_exe: {e}")));
+    std::process::Command::new(exe)
+        .args(args)
+        .env("RUST_BACKTRACE", "0")
+        .output()
+        .unwrap_or_else(|e| vcore::machinery_error(&format!("cannot start the worker process: {e}")))
+}
+
+/// Runs one history in a child: Ok(true) = held, Ok(false) = oracle violation, Err = died.
+fn single_in_child(machine: &str, hist: &[usize]) -> Result<bool, String> {
+    let o = child(&["--worker".into(), "--single".into(), machine.into(), serde_json::to_string(hist).unwrap()]);
+    match o.status.code() {
+        Some(0) => Ok(true),
+        Some(1) => Err(format!(
+            "oracle violation in an isolated replay: {}",
+            vcore::short(String::from_utf8_lossy(&o.stdout).lines().find(|l| l.starts_with("SINGLE")).unwrap_or(""))
+        )),
+        Some(2) => vcore::machinery_error(&format!("single-history worker reported a machinery error: {}", String::from_utf8_lossy(&o.stdout))),
+        other => Err(format!(
+            "worker process died ({}) while replaying the history: {}",
+            other.map(|c| format!("exit code {c}")).unwrap_or_else(|| "killed by a signal".into()),
+            vcore::short(String::from_utf8_lossy(&o.stderr).lines().last().unwrap_or(""))
+        )),
+    }
+}
+
+fn worker_single(machine: &str, hist_json: &str) -> ! {
+    vcore::quiet_panics();
+    let _ = spans();
+    let hist: Vec<usize> = serde_json::from_str(hist_json).unwrap_or_default();
+    let mut st = Stats::default();
+    let r = match machine {
+        "name" => run_name_history(&name_ops(), &hist, &mut st).map(|_| ()),
+        _ => run_node_history(&node_ops(), &hist, &mut st).map(|_| ()),
+    };
+    match r {
+        Ok(()) => std::process::exit(0),
+        Err((sig, _)) if sig == "machinery:disabled-op" => std::process::exit(0),
+        Err((sig, d)) => {
+            println!("SINGLE violation {sig}: {d}");
+            std::process::exit(1)
+        }
+    }
+}
+
+fn supervisor() -> ! {
+    let args: Vec<String> = std::env::args().skip(1).collect();
+    let mut wargs = vec!["--worker".to_string()];
+    wargs.extend(args.iter().cloned());
+    let exe = std::env::current_exe().unwrap_or_else(|e| vcore::machinery_error(&format!("current_exe: {e}")));
+    let status = std::process::Command::new(exe)
+        .args(&wargs)
+        .env("RUST_BACKTRACE", "0")
+        .status()
+        .unwrap_or_else(|e| vcore::machinery_error(&format!("cannot start the worker process: {e}")));
+    if let Some(c @ (0 | 1 | 2)) = status.code() {
+        std::process::exit(c);
+    }
+    // the worker died: memory error (or an abort inside apollo-rs). Turn it into a verdict.
+    let how = status.code().map(|c| format!("exit code {c}")).unwrap_or_else(|| "killed by a signal".into());
+    let mut chk = vcore::Check::new("C30");
+    if chk.args.replay.is_some() {
+        println!("REPLAY property=C30 result=violation signature=memory-error detail=the worker process died ({how}) while replaying the case");
+        std::process::exit(1);
+    }
+    println!("NOTE the exploring worker process died ({how}); localising with one child process per history");
+    let mut found: Option<(String, Vec<usize>, String)> = None;
+    'outer: for depth in 1..=2usize {
+        for (machine, k) in [("name", name_ops().len()), ("node", node_ops().len())] {
+            let total = hist_count(k, depth);
+            let hists: Vec<Vec<usize>> = (0..total).map(|i| nth_hist(k, depth, i)).collect();
+            use rayon::prelude::*;
+            let results: Vec<(Vec<usize>, Result<bool, String>)> =
+                hists.par_iter().map(|h| (h.clone(), single_in_child(machine, h))).collect();
+            chk.stats.states += results.len() as u64;
+            chk.stats.transitions += results.len() as u64 * depth as u64;
+            for (h, r) in results {
+                match r {
+                    Ok(true) => chk.stats.outcome("single-history child: held"),
+                    Ok(false) => chk.stats.outcome("single-history child: oracle violation"),
+                    Err(e) => {
+                        if found.is_none() {
+                            found = Some((machine.to_string(), h, e));
+                        }
+                    }
+                }
+            }
+            if found.is_some() {
+                break 'outer;
+            }
+        }
+    }
+    match found {
+        Some((machine, h, e)) => {
+            let ops: Vec<String> = if machine == "name" {
+                h.iter().map(|&i| format!("{:?}", name_ops()[i])).collect()
+            } else {
+                h.iter().map(|&i| format!("{:?}", node_ops()[i])).collect()
+            };
+            chk.stats.fail_simple(
+                &format!("memory-error:{machine}"),
+                json!({"machine": machine, "history": h, "crash": true, "operations": ops}),
+                format!("history {ops:?}: {e}"),
+                h.len() as u64,
+            );
+        }
+        None => chk.stats.fail_simple(
+            "memory-error:unlocalised",
+            json!({"machine": "full-run", "crash": true}),
+            format!("the exploring worker died ({how}) but no history of length <= 2 reproduces it in isolation"),
+            99,
+        ),
+    }
+    chk.stats.nontrivial = 1;
+    chk.rule = "supervisor mode: the exploring worker died; states = histories replayed one per child process".into();
+    chk.bounds = json!({"mode": "crash localisation", "max_history_length": 2});
+    chk.exhaustive = false;
+    chk.finish(&|case| match case["machine"].as_str() {
+        Some(m @ ("name" | "node")) => {
+            let h: Vec<usize> = case["history"].as_array().map(|a| a.iter().filter_map(|x| x.as_u64().map(|x| x as usize)).collect()).unwrap_or_default();
+            !matches!(single_in_child(m, &h), Ok(true))
+        }
+        _ => true,
+    })
+}
+
+fn hist_count(k: usize, depth: usize) -> u64 {
+    (k as u64).pow(depth as u32)
+}
+
+fn nth_hist(k: usize, depth: usize, mut i: u64) -> Vec<usize> {
+    let mut h = vec![0usize; depth];
+    for d in (0..depth).rev() {
+        h[d] = (i % k as u64) as usize;
+        i /= k as u64;
+    }
+    h
+}
+
 fn main() {
+    let argv: Vec<String> = std::env::args().collect();
+    if !argv.iter().any(|a| a == "--worker") {
+        supervisor();
+    }
+    if let Some(p) = argv.iter().position(|a| a == "--single") {
+        worker_single(argv.get(p + 1).map(|s| s.as_str()).unwrap_or("name"), argv.get(p + 2).map(|s| s.as_str()).unwrap_or("[]"));
+    }
     let mut chk = vcore::Check::new("C30");
     vcore::quiet_panics();
     let _ = spans();
